@@ -256,6 +256,10 @@ func TestVerifC40Mux(t *testing.T) {
 			}
 			for m := r.Intn(4); m > 0; m-- {
 				nfr := 1 + r.Intn(4)
+				empty := kind == "emptymsg" && m == 1 && s == 0
+				if empty {
+					nfr = 1 + r.Intn(2)
+				}
 				var msg []byte
 				for f := 0; f < nfr; f++ {
 					sz := r.Intn(30)
@@ -265,8 +269,8 @@ func TestVerifC40Mux(t *testing.T) {
 					if r.Intn(4) == 0 && nfr > 1 {
 						sz = 0 // empty fragment
 					}
-					if kind == "emptymsg" && m == 1 && s == 0 {
-						sz, nfr = 0, 1+r.Intn(2)
+					if empty {
+						sz = 0
 					} else if f == nfr-1 && len(msg) == 0 && sz == 0 {
 						sz = 1 // empty messages only in the emptymsg kind
 					}
